@@ -58,9 +58,11 @@ def _shape_unit(n_parts, district):
         class Col:
             pass
 
+        rp = lambda ev: {"target": "verif_replays:unexpected_id_replay", "args": [[str(ev(p)) for p in parts], bool(district)], "check": "result['exc'] is None and result['ok']"}  # noqa: E731
+        h.default_replay = rp
         kind, res = h.call_method(self, "_get_unexpected_units", aggs)
         if kind == "raise":
-            return h.fail("no_raise", f"raised {res}")
+            return h.fail("no_raise", f"raised {res}", replay=rp)
         rows = z3.And(*res.axis.facts())
         want_county = parts[1] if district else parts[0]
         c = res.col("county_fips")
